@@ -379,7 +379,11 @@ NEGZERO = re.compile(r"-0\.0(?![0-9eE])")
 def negative_zero_sign_lost(case, params):
     """the text -0.0 (alone or as a part of a complex number) reads back as 0.0: the datum read is equal? to the one written,
     only the sign of zero is lost (same root as C10-F34)"""
-    if case.get("kind") != "number-roundtrip" or case.get("mode") != "rewrite":
+    if case.get("kind") != "number-roundtrip":
+        return False
+    tags = case.get("tags", [])
+    # with a NaN part equal? is false anyway and the check compares the texts: the lost sign shows up there
+    if not (case.get("mode") == "rewrite" or (case.get("mode") == "roundtrip" and "nan" in tags and "negzero" in tags)):
         return False
     w, r = case.get("written", ""), case.get("rewritten", "")
     return w != r and bool(NEGZERO.search(w)) and NEGZERO.sub("0.0", w) == NEGZERO.sub("0.0", r)
